@@ -10,7 +10,7 @@ agree   : the annotated reader model (`SaModel/Read/Annot.lean`, `AnnFixes.all`)
           gives the outcome of the un-annotated model (`Reader.readAs`) the C02 / C17 theorems are about.
 spec C18 (independent of the operational model): an error carries both keys, and (field, data_type) is one of the
           positions of the record's type (`segsArr`: the `$`-rooted walk over the view) with the label of the
-          reader family there; and — BLAME, the specification of `Props.C18De.C18_de_blame` — on every erroring typed read
+          reader family there; and — BLAME, the specification of `Props.C18.C18_de_blame` (Props/C18De.lean) — on every erroring typed read
           whose slot decodes and meets the hypotheses of that theorem (reader built, physical lengths, UTF-8 strings,
           neither known finding #23 / #24 inside the value: `noKnown`), (field, data_type) is one of the positions
           `Spec.blameRead target view value` blames (written from `Read.cast`, not from the readers): signature
